@@ -28,6 +28,8 @@ pub struct AikCfg {
     pub closure_weight: u32,
     /// prefer `List<Pair<k, v>>` among list types and list types among generic instantiations
     pub pairs_bias: bool,
+    /// give some data types explicit `@tag(n)` constructor indices
+    pub explicit_tags: bool,
     /// weight of trace / `?` constructs
     pub trace_weight: u32,
     /// weight of Data casts
@@ -38,7 +40,7 @@ pub struct AikCfg {
 
 impl Default for AikCfg {
     fn default() -> Self {
-        AikCfg { max_depth: 5, max_adts: 3, max_helpers: 4, abort_weight: 3, expect_weight: 3, closure_weight: 2, pairs_bias: false, trace_weight: 3, cast_weight: 6, opaque: false, builtins: true }
+        AikCfg { max_depth: 5, max_adts: 3, max_helpers: 4, abort_weight: 3, expect_weight: 3, closure_weight: 2, pairs_bias: false, explicit_tags: false, trace_weight: 3, cast_weight: 6, opaque: false, builtins: true }
     }
 }
 
@@ -327,6 +329,10 @@ impl<'s, 'd> Gen<'s, 'd> {
         Ty::Adt(i, args)
     }
 
+    pub fn gen_adts_pub(&mut self) {
+        self.gen_adts()
+    }
+
     fn gen_adts(&mut self) {
         let n = self.src.below(self.cfg.max_adts + 1);
         for k in 0..n {
@@ -364,7 +370,19 @@ impl<'s, 'd> Gen<'s, 'd> {
                 ctors.push(Ctor { name: format!("{name}C{c}"), fields });
             }
             // a generic type must use its parameter somewhere (otherwise phantom: fine, but keep it used)
-            self.m.adts.push(AdtDecl { name, params, ctors, opaque: false, public: true });
+            let tags = if self.cfg.explicit_tags && self.src.chance(1, 2) {
+                // explicit, increasing, possibly sparse constructor indices in all three CBOR tag ranges
+                let mut next = *self.src.pick(&[0u64, 1, 5, 6, 100, 126, 127, 128, 1000]);
+                let mut v = vec![];
+                for _ in 0..ctors.len() {
+                    v.push(next);
+                    next += 1 + self.src.below(3) as u64 * *self.src.pick(&[0u64, 1, 60]);
+                }
+                v
+            } else {
+                vec![]
+            };
+            self.m.adts.push(AdtDecl { name, params, ctors, opaque: false, public: true, tags });
         }
     }
 
